@@ -26,7 +26,8 @@ CHECKS["C10"] = dict(
         "tiles [0,2^64) and its function view is the point-wise update; search = function view; OOM leaves the map unchanged; lifted by induction to "
         "all histories with arbitrary allocation outcomes. Tie: differential run of the real functions (realloc failing on schedule) vs the compiled "
         "model on exhaustive breakpoint pairs/triples and random boundary-biased histories; the function-view property is also evaluated directly on "
-        "the implementation's exposed range list.",
+        "the implementation's exposed range list."
+        "Round 4: layout tables through the real sys_set_layout with every allocation failing in turn (model setLayout/layoutLoop; layout_status, layout_ok_map, layout_ok_rev, layout_ok_rev_some, layout_no_fault).",
    note=TB + "Guard: addr+endoff < 2^64. realloc modelled as succeed/fail preserving content; independence of copies (aliasing) checked by the stream only.",
    technique="Lean 4 proof (induction over histories) + differential correspondence", design="§6 C10")
 CHECKS["C12"] = dict(
@@ -34,7 +35,8 @@ CHECKS["C12"] = dict(
         "failure delivers a correct proper prefix ending at the start of the first failing page with that page's status; success iff all touched pages "
         "fetchable; strings are the bytes up to the first NUL across pages; a failed string read returns no buffer. Tie: differential on generated ELF "
         "dumps with holes in all three address spaces; the oracle is discovered by whole-page reads of the implementation so the check is independent "
-        "of the format handlers; sentinel bytes and live-allocation counting observe 'untouched beyond prefix' and 'no leaked partial buffer'.",
+        "of the format handlers; sentinel bytes and live-allocation counting observe 'untouched beyond prefix' and 'no leaked partial buffer'."
+        "Round 4: reads while the page size is unknown and after it was set (model readApi/readStringApi; read_unknown_ps, readApi_known, readApi_len_le, string_unknown_ps).",
    note=TB + "Everything below the read loop (translation, cache, format handler) is the oracle parameter; OracleSound: a failing fetch has non-OK status.",
    technique="Lean 4 proof (loop invariant by induction on fuel) + differential correspondence", design="§6 C12")
 CHECKS["C02"] = dict(
@@ -86,7 +88,8 @@ CHECKS["C16"] = dict(
         "derived register accessors) with theorems that a call entered with an empty string ends with an empty string iff it succeeds, that a tolerated "
         "failure leaves no text behind and that a failing chain tells one story; tied by driver stream `flow` to addrxlat_sys_os_init on generated images "
         "(every architecture; get_page failing with each status class at each page read, every symbol look-up refused in turn) and to register / Xen "
-        "version attribute calls on generated dumps (blob cleared, replaced, too short; crash note pointing to readable, absent, truncated memory).",
+        "version attribute calls on generated dumps (blob cleared, replaced, too short; crash note pointing to readable, absent, truncated memory)."
+        "Round 4: message flag across do_op alternatives (Kdf.Model.SysMsg, Kdf.Props.C16Hist: op_success_clean, op_failure_msg, ...), 64-bit size fields reaching an allocation (ErrFlow.ctxMalloc, s390OsInfoAlloc), histories on one addrxlat context (tolerated set-up failure, then non-present walks; implementation only).",
    note=TB + "Partial: that each of the ~150 error exits of the library sets a message and that no stale message survives a successful call is proved for "
         "the modelled functions (outcomes of callbacks, reads and allocations are parameters assumed to obey the property) and observed by the monitors "
         "on the other exercised calls (x86_64/ia32 set-up, conversions, good and truncated dumps, failing reads/attribute calls, allocation failures).",
@@ -97,7 +100,8 @@ CHECKS["C11"] = dict(
         "positions read as zero), the scan accepts every well-formed stream and terminates; split sets: the file found for a frame is the one whose window "
         "contains it, in any order of passing the files. Tie: the real flatmap.c on explicit record streams vs model and an independent oracle; the page "
         "descriptor file/position of every frame of split sets observed through ld --wrap; plain twins compared with flattened variants and split sets "
-        "through the public API (attribute tree, both page maps, page and cross-page reads).",
+        "through the public API (attribute tree, both page maps, page and cross-page reads)."
+        "Round 4: split sets whose windows leave frames outside, read with file.zero_excluded=1 (model PageSrc/readPageSrc; split_uncovered_excluded, zero_excluded_only_excluded).",
    note=TB + "SADUMP disk sets are not covered (no writer); allocation failure and I/O errors of the packaging layer are not exercised; the library is built "
         "without UBSan's alignment check for this property (header structs are read at arbitrary alignment inside flattened files).",
    technique="Lean 4 proof (flattened read = rearranged file; split order irrelevance) + differential correspondence", design="§6 C11")
@@ -148,7 +152,8 @@ CHECKS["C01"] = dict(
         "Tie and property evaluation: generated ELF (32/64-bit, both byte orders, unaligned/file-less segments), diskdump/KDUMP (raw, zlib, stored zlib, "
         "snappy, zstd, LZO-flag, excluded pages, 32/64-bit headers), LKCD (raw/RLE/gzip, unordered, duplicate, gapped, far-off frames), SADUMP and s390 "
         "dumps; every frame, unaligned page-crossing ranges, range ends, both zero_excluded settings and the five geometry attributes are compared with "
-        "the image and layout the generator encoded (status, length, CRC-32); the model answers symbolically where each page's bytes come from.",
+        "the image and layout the generator encoded (status, length, CRC-32); the model answers symbolically where each page's bytes come from."
+        "Round 4: ELF cores with extended program header numbering (model elfCounts/elfLoads; elf_counts_plain, elf_counts_xnum, elf_loads_all, elf_xnum_spec; the driver derives the segments from the raw header fields) and transient failures of LKCD descriptor reads (model lkSearchF/lkGetF; lkcd_fault_spec, lkcd_fault_silent, lkcd_fault_recovers).",
    note=TB + "Header parsing, the geometry attributes, s390, split-file selection, the real zlib/snappy/zstd decompressors and the LKCD three-level block "
         "table (abstracted to a finite map) are checked differentially only; tools/dumpgen.py writers are trusted generators.",
    technique="Lean 4 proof (lookup/zero-fill/RLE) + exhaustive differential reads of generated dumps", design="§6 C01")
@@ -165,7 +170,8 @@ CHECKS["C18"] = dict(
         "and cache.size changes on open dumps, first queries of memory.pagemap/file.pagemap/max_pfn, per_ctx_alloc, translation set-up, "
         "attributes, addrxlat_sys_os_init, free), every allocation index 1..N+1 failed in a forked child, judged on status, crash/sanitizer report, locks "
         "held at return (pthread interposition ledger), leaks after freeing survivors, follow-up calls on survivors; the model's alloc/free/lock trace is "
-        "compared with the intercepted real trace for every n.",
+        "compared with the intercepted real trace for every n."
+        "Round 4: sets of dump files opened and file.set.number raised under every allocation failure (model numFilesGrow, numFilesGrow_safe; fdset scenarios implementation only).",
    note=TB + "Allocations inside zlib/zstd/snappy and mmap are not failed; single-threaded; a refused request to SHRINK a block may be ignored by the "
         "caller (counted, all other rules apply); open/read of LKCD, SADUMP and s390, re-open, cache.size, file.pagemap and max_pfn are enumerated and "
         "observed, not modelled.",
@@ -231,7 +237,8 @@ CHECKS["C13"] = dict(
         "persistent descendant and drops the rest. Tie and property evaluation: random histories of all public attribute calls (get/typed get/set by path, "
         "references and sub-references, iterators, clone/free, re-open) on real contexts over global keys, cpu.N, file.set.N and VMCOREINFO-created keys "
         "with hash-bucket-colliding prefix keys, every answer compared with an independent Python dictionary and with the model (iteration order and "
-        "persist flags exactly).",
+        "persist flags exactly)."
+        "Round 4: file.set.number grown under every allocation failure (numFiles_rollback_sub, numFiles_rollback_no_stale, numFiles_fail_no_stale), lazily revalidated values read first through reference / iterator / path (version_code_follows_release), application-set cpu.number across an open.",
    note=TB + "Lookup completeness, path creation, VMCOREINFO parsing, file.set.N, clone_attr_path and open as wholes are observed, not proved. Dynamic keys "
         "created through a clone with a private dictionary are excluded (finding recorded under C15); findings overlay-clone-root, pagemap-clear-deadlock.",
    technique="Lean 4 proof (dictionary laws of the attr.c model) + differential correspondence with an independent dictionary oracle", design="§6 C13")
